@@ -102,7 +102,7 @@ def run_llir(prop, families, tier, seed, workdir):
 def finish(prop, tier, seed, parts, t0, meta):
     """merge parts, write evidence, print verdict lines, return exit code"""
     from engine import known as known_mod
-    ev_path = os.path.join(ROOT, 'evidence', '%s.json' % prop)
+    ev_path = os.path.join(os.environ.get('VF_EVIDENCE_DIR') or os.path.join(ROOT, 'evidence'), '%s.json' % prop)
     os.makedirs(os.path.dirname(ev_path), exist_ok=True)
     violations, errors, mismatches, inconclusive = [], [], [], []
     known_hits = {}
